@@ -498,6 +498,22 @@ Definition restore_var (old : list (string * val)) (st : state) (x : string) : s
 Definition restore_vars (names : list string) (old : list (string * val)) (st : state) : state :=
   fold_left (restore_var old) names st.
 
+(* ---- consumers of a generator expression (helpers of EGenCall) --------------------------------- *)
+(* what f does with the next item y of the generator: all(..) returns False at the first falsy item, any(..) True at the
+   first truthy one; otherwise the next item is asked for.  (Other consumers are not rendered as EGenCall.) *)
+Inductive gen_ctl := GStop (v : val) | GNext | GStuck (w : string).
+
+Definition gen_step (f : string) (y : val) : gen_ctl :=
+  if String.eqb f "all" then (if truthy y then GNext else GStop (VBool false))
+  else if String.eqb f "any" then (if truthy y then GStop (VBool true) else GNext)
+  else GStuck ("generator expression consumed by " ++ f).
+
+(* the generator is exhausted *)
+Definition gen_finish (f : string) (st : state) : outcome val :=
+  if String.eqb f "all" then Ok (VBool true) st
+  else if String.eqb f "any" then Ok (VBool false) st
+  else Stuck ("generator expression consumed by " ++ f).
+
 (* ---- the interpreter ---------------------------------------------------------- *)
 Section Interp.
   (* calls the subset does not define: name, positional and keyword arguments, state *)
@@ -571,7 +587,9 @@ Section Interp.
                   | VInt z => Ok (VInt (- z)) st1
                   | VQ q => Ok (VQ (Qopp q)) st1
                   | VInf p => Ok (VInf (negb p)) st1      (* -float("inf") *)
-                  | _ => Stuck "neg"
+                  | _ => ext "$neg" [av] [] st1   (* -x on a value without a negation in the subset (a tensor): by definition
+                                                     the call x.__neg__(), so the unit's [ext] is asked (like "$invert");
+                                                     a unit's [ext] that does not know the name answers Stuck, as before *)
                   end)
     | ECmp op a b => bind (eval a st) (fun av st1 => bind (eval b st1) (fun bv st2 =>
                        if (rich op && (foreign av || foreign bv))%bool
@@ -642,6 +660,29 @@ Section Interp.
                                then bind (eval elt st2) (fun y st3 => bind (go r st3) (fun ys st4 => Ok (y :: ys) st4))
                                else go r st2))
                        end) items st1) (fun ys st2 => Ok (VList ys) (restore_vars (x :: names) (vars st1) st2))
+          end)
+    | EGenCall f elt x names it cond =>
+        (* the iterable is evaluated at once; the items are produced one by one and handed to f's step; the names bound
+           by the generator are local to it *)
+        bind (eval it st) (fun v st1 =>
+          match (if foreign v then None else container_items v) with
+          | None => Stuck "generator over a non-container"
+          | Some items =>
+              bind ((fix go (l : list val) (st : state) {struct l} : outcome val :=
+                       match l with
+                       | [] => gen_finish f st
+                       | i :: r =>
+                           bind (bind_item x names i st) (fun _ st' =>
+                             bind (eval cond st') (fun c st2 =>
+                               if truthy c
+                               then bind (eval elt st2) (fun y st3 =>
+                                      match gen_step f y with
+                                      | GStop w => Ok w st3
+                                      | GNext => go r st3
+                                      | GStuck w => Stuck w
+                                      end)
+                               else go r st2))
+                       end) items st1) (fun w st2 => Ok w (restore_vars (x :: names) (vars st1) st2))
           end)
     end.
 
@@ -771,6 +812,21 @@ Section Interp.
                end) handlers
         | o => o
         end
+    | SWith e x body =>
+        (* with e as x: body.  mgr = e; x = mgr.__enter__(); body; mgr.__exit__(exception or None) - a truthy answer
+           swallows the exception.  [ext] plays the two methods; it is also given the value x holds when the block is
+           left (for a file, __enter__ returns the manager itself: under value semantics that is where its writes are). *)
+        bind (eval e st) (fun m st1 =>
+          bind (ext "$enter" [m] [] st1) (fun v st2 =>
+            let cur st3 := match lookup x (vars st3) with Some w => w | None => VNone end in
+            match exec body (set_var x v st2) with
+            | Ok c st3 => bind (ext "$exit" [m; cur st3; VNone] [] st3) (fun _ st4 => Ok c st4)
+            | Exc n st3 =>
+                if internal_exc n then Stuck "control signal through a with block"
+                else bind (ext "$exit" [m; cur st3; VStr n] [] st3) (fun r st4 =>
+                       if truthy r then Ok CNormal st4 else Exc n st4)
+            | Stuck w => Stuck w
+            end))
     | SContinue => Exc "$continue" st       (* caught by the enclosing SForC; no handler of STryExc matches it *)
     | SForC x e body =>
         bind (eval e st) (fun v st1 =>
